@@ -437,6 +437,9 @@ func (fx *fexec) assignComp(c *Contract, f *ssa.Function, x *SX) (string, string
 	}
 	sc := &SpecCtx{vc: vc, vars: vars, st: &State{heap: map[string]Term{}}, pkg: f.Pkg.Pkg, hp: &heapParams{comps: map[string]string{}}}
 	switch x.K {
+	case "ghost":
+		l := sc.ghostLoc(vc.eng.contracts.Ghosts[x.Op])
+		return l.Comp, l.Sort
 	case "sel":
 		base := sc.eval(x.Args[0])
 		pt := vc.resolve(base.Ty).Underlying().(*types.Pointer)
